@@ -199,6 +199,12 @@ def run(ctx):
     ncase = 220 if deep else 40
     nq = 24 if deep else 14
     cases = [WITNESS] + [gen_case(rng, nq, big=deep and i % 4 == 0) for i in range(ncase)]
+    if ctx.replay:
+        # re-execute the single case of a replay file through the same pipeline
+        R = json.load(open(ctx.replay))
+        cases = [R['case'], R['case']]
+        ctx.note('replayed', ctx.replay)
+        ctx.count(evaluations=1, nontrivial_keys=[('replay', 1), ('replay', 2)])
     impl = ctx.harness('drive_chron.py', {'cases': cases})['cases']
 
     found = []
